@@ -567,6 +567,12 @@ class C12(Prop):
             if isinstance(e, (asyncio.CancelledError, SimDeadlock, SimTimeLimit, SimStepLimit, HarnessError, KeyboardInterrupt, SystemExit)):
                 raise e
 
+        # the endpoint works under a deadline (asyncio.wait_for) and the client stalls before its last message
+        deadline = target == "reqbody" and len(script) >= 1 and sched.draw(6) == 0
+        if deadline:
+            ctx.fault("client_stalls_endpoint_deadline")
+            script[-1]["delay"] = 30.0
+
         async def scenario(loop):
             peer = AsgiHttpPeer(loop, ctx, sched, fe, script, send_lats=(0.0,), recv_lat_extra=(0.0, 0.0, 0.01), surface="asgi")
             if target == "accessors":
@@ -574,26 +580,39 @@ class C12(Prop):
             elif target == "reqbody":
                 req = Request(peer.scope, peer.receive, peer.send)
                 n_viol = len(ctx.violations)
+
+                async def do(op):
+                    if op == "body":
+                        return len(await req.body)
+                    if op == "json":
+                        await req.json
+                        return 0
+                    if op == "stream":
+                        n = 0
+                        async for c in req.stream():
+                            n += len(c)
+                        return n
+                    form = await req.form
+                    n = 0
+                    for _, v in form.multi_items():
+                        if isinstance(v, UploadFile):
+                            n += len(await v.aread())
+                            ctx.probe("upload_read")
+                    return n
+
                 for op in plan["ops"]:
                     state["entry"] = op
                     exc = None
                     try:
-                        if op == "body":
-                            n = len(await req.body)
-                        elif op == "json":
-                            await req.json
-                            n = 0
-                        elif op == "stream":
-                            n = 0
-                            async for c in req.stream():
-                                n += len(c)
+                        if deadline:
+                            try:
+                                n = await asyncio.wait_for(do(op), 1.0)
+                            except asyncio.TimeoutError:
+                                ctx.probe("endpoint_deadline_hit")
+                                ctx.ev("out", op, "deadline")
+                                break           # the endpoint gives up (what a repeated access then sees is C10's subject); it still closes the request
                         else:
-                            form = await req.form
-                            n = 0
-                            for _, v in form.multi_items():
-                                if isinstance(v, UploadFile):
-                                    n += len(await v.aread())
-                                    ctx.probe("upload_read")
+                            n = await do(op)
                     except BaseException as e:  # noqa
                         guard(e)
                         exc = e
@@ -604,6 +623,11 @@ class C12(Prop):
                     state["entry"] = "close"
                     try:
                         await req.close()
+                    except asyncio.CancelledError as e:
+                        if not deadline or asyncio.current_task().cancelling():
+                            raise
+                        # nobody cancelled close(): the cancellation of the abandoned accessor leaked out of it
+                        ctx.violate("C12|asgi|close|CancelledError|Request.close", "close() after an accessor abandoned at the endpoint's deadline raised %r; %s" % (e, self._example(plan)))
                     except BaseException as e:  # noqa
                         guard(e)
                         self._judge(ctx, plan, "close", e)
